@@ -83,15 +83,39 @@ def expected_bytes(probe, fmt, vtext):
     return None, rr.get("err", "")
 
 
-def build(tp, name="f.ucg"):
-    return core.run_cli(["build", name], tp.root)
+PLACES = [("f.ucg", ".", False)] * 4 + [
+    ("my.conf.ucg", ".", False), ("sp ace.ucg", ".", False), (".hidden.ucg", ".", False), ("a-b_c.v2.ucg", ".", False),
+    ("sub/inner.ucg", ".", False), ("sub/inner.ucg", "sub", False), ("sub/inner.ucg", "other", False), ("sub/deep/x.y.ucg", "sub", False),
+    ("f.ucg", ".", True), ("sub/inner.ucg", "other", True), ("\u00fcn\u00ef.ucg", ".", False), ("f.ucg", "other", False),
+]
 
 
-def judge_good(res, probe, tp, fmt, ext, vtext, history, witness):
+class Place:
+    """where the source file lives (relative to the project root), the cwd of the build, and how the file is named on argv"""
+
+    def __init__(self, src="f.ucg", cwd=".", absolute=False):
+        self.src, self.cwd, self.absolute = src, cwd, absolute
+
+    def art(self, ext):
+        assert self.src.endswith(".ucg")
+        return self.src[:-4] + "." + ext
+
+    def as_json(self):
+        return [self.src, self.cwd, self.absolute]
+
+
+def build(tp, pl):
+    cwd = os.path.normpath(os.path.join(tp.root, pl.cwd))
+    os.makedirs(cwd, exist_ok=True)
+    arg = tp.path(pl.src) if pl.absolute else os.path.relpath(tp.path(pl.src), cwd)
+    return core.run_cli(["build", arg], cwd)
+
+
+def judge_good(res, probe, tp, pl, fmt, ext, vtext, history, witness):
     before = snapshot(tp.root)
-    ev = build(tp)
+    ev = build(tp, pl)
     after = snapshot(tp.root)
-    art = "f." + ext
+    art = pl.art(ext)
     exp, err = expected_bytes(probe, fmt, vtext)
     if exp is None:
         res.count("expected-bytes-unavailable")
@@ -116,11 +140,11 @@ def judge_good(res, probe, tp, fmt, ext, vtext, history, witness):
     return True
 
 
-def judge_bad(res, tp, fmt, ext, history, witness, kind):
+def judge_bad(res, tp, pl, fmt, ext, history, witness, kind):
     before = snapshot(tp.root)
-    ev = build(tp)
+    ev = build(tp, pl)
     after = snapshot(tp.root)
-    art = "f." + ext
+    art = pl.art(ext)
     if ev.get("hang") or ev["signal"] or ev["exit"] not in (0, 1):
         res.count("crash-left-to-C04")
         return
@@ -167,48 +191,51 @@ def task(args):
         bads = list(BAD.get(fmt, []))
         with core.TempProject("c14") as tp:
             scenario = r.choice(["fresh-good", "good-bad-good", "bad-first", "constraint", "zero-out", "two-outs", "good-good"])
-            witness = {"format": fmt, "good": good_t, "scenario": scenario}
+            pl = Place(*r.choice(PLACES))
+            os.makedirs(tp.path("other"), exist_ok=True)
+            witness = {"format": fmt, "good": good_t, "scenario": scenario, "place": pl.as_json()}
+            res.count("place:%s@%s%s" % (pl.src, pl.cwd, ":abs" if pl.absolute else ""))
             if scenario in ("good-bad-good", "bad-first") and not bads:
                 scenario = "constraint"
                 witness["scenario"] = scenario
             res.case((fmt, good_t, scenario), nontrivial=(scenario != "fresh-good"))
             res.count("scenario:" + scenario)
             if scenario == "fresh-good":
-                tp.write("f.ucg", "let v = %s;\nout %s v;\n" % (good_t, fmt))
-                judge_good(res, probe, tp, fmt, ext, good_t, ["good"], witness)
+                tp.write(pl.src, "let v = %s;\nout %s v;\n" % (good_t, fmt))
+                judge_good(res, probe, tp, pl, fmt, ext, good_t, ["good"], witness)
             elif scenario == "good-good":
-                tp.write("f.ucg", "let v = %s;\nout %s v;\n" % (good_t, fmt))
-                if judge_good(res, probe, tp, fmt, ext, good_t, ["good"], witness):
+                tp.write(pl.src, "let v = %s;\nout %s v;\n" % (good_t, fmt))
+                if judge_good(res, probe, tp, pl, fmt, ext, good_t, ["good"], witness):
                     v2 = expr_text(GOOD[fmt](r)) if c03.lit_ok(GOOD[fmt](r)) else good_t
-                    tp.write("f.ucg", "let v = %s;\nout %s v;\n" % (v2, fmt))
+                    tp.write(pl.src, "let v = %s;\nout %s v;\n" % (v2, fmt))
                     witness["good2"] = v2
-                    judge_good(res, probe, tp, fmt, ext, v2, ["good", "good"], witness)
+                    judge_good(res, probe, tp, pl, fmt, ext, v2, ["good", "good"], witness)
             elif scenario == "good-bad-good":
                 bad_t = r.choice(bads)
                 witness["bad"] = bad_t
-                tp.write("f.ucg", "let v = %s;\nout %s v;\n" % (good_t, fmt))
-                if judge_good(res, probe, tp, fmt, ext, good_t, ["good"], witness):
-                    tp.write("f.ucg", "let v = %s;\nout %s v;\n" % (bad_t, fmt))
-                    judge_bad(res, tp, fmt, ext, ["good", "bad"], witness, "literal")
-                    tp.write("f.ucg", "let v = %s;\nout %s v;\n" % (good_t, fmt))
-                    judge_good(res, probe, tp, fmt, ext, good_t, ["good", "bad", "good"], witness)
+                tp.write(pl.src, "let v = %s;\nout %s v;\n" % (good_t, fmt))
+                if judge_good(res, probe, tp, pl, fmt, ext, good_t, ["good"], witness):
+                    tp.write(pl.src, "let v = %s;\nout %s v;\n" % (bad_t, fmt))
+                    judge_bad(res, tp, pl, fmt, ext, ["good", "bad"], witness, "literal")
+                    tp.write(pl.src, "let v = %s;\nout %s v;\n" % (good_t, fmt))
+                    judge_good(res, probe, tp, pl, fmt, ext, good_t, ["good", "bad", "good"], witness)
             elif scenario == "bad-first":
                 bad_t = r.choice(bads)
                 witness["bad"] = bad_t
-                tp.write("f.ucg", "let v = %s;\nout %s v;\n" % (bad_t, fmt))
-                judge_bad(res, tp, fmt, ext, ["bad"], witness, "literal")
+                tp.write(pl.src, "let v = %s;\nout %s v;\n" % (bad_t, fmt))
+                judge_bad(res, tp, pl, fmt, ext, ["bad"], witness, "literal")
             elif scenario == "constraint":
                 witness["bad"] = "constraint value"
                 if r.random() < 0.5:
-                    tp.write("f.ucg", "let v = %s;\nout %s v;\n" % (good_t, fmt))
-                    judge_good(res, probe, tp, fmt, ext, good_t, ["good"], witness)
-                tp.write("f.ucg", CONSTRAINT_PROG % fmt)
+                    tp.write(pl.src, "let v = %s;\nout %s v;\n" % (good_t, fmt))
+                    judge_good(res, probe, tp, pl, fmt, ext, good_t, ["good"], witness)
+                tp.write(pl.src, CONSTRAINT_PROG % fmt)
                 if fmt in ("json", "yaml", "yamlmulti", "toml"):
-                    judge_bad(res, tp, fmt, ext, ["?", "constraint"], witness, "constraint")
+                    judge_bad(res, tp, pl, fmt, ext, ["?", "constraint"], witness, "constraint")
             elif scenario == "zero-out":
-                tp.write("f.ucg", "let v = %s;\n" % good_t)
+                tp.write(pl.src, "let v = %s;\n" % good_t)
                 before = snapshot(tp.root)
-                ev = build(tp)
+                ev = build(tp, pl)
                 after = snapshot(tp.root)
                 if ev["exit"] != 0 or before != after:
                     res.violation(["file-without-out-changes-directory-or-fails"], witness, {"exit": ev["exit"], "new": sorted(set(after) - set(before))})
@@ -216,8 +243,8 @@ def task(args):
                     res.count("zero-out-ok")
             elif scenario == "two-outs":
                 other = r.choice([f for f in fmts if f in GOOD])
-                tp.write("f.ucg", "let v = %s;\nout %s v;\nout %s %s;\n" % (good_t, fmt, other, expr_text(GOOD[other](r)) if c03.lit_ok(GOOD[other](r)) else "{a = 1}"))
-                ev = build(tp)
+                tp.write(pl.src, "let v = %s;\nout %s v;\nout %s %s;\n" % (good_t, fmt, other, expr_text(GOOD[other](r)) if c03.lit_ok(GOOD[other](r)) else "{a = 1}"))
+                ev = build(tp, pl)
                 if ev["exit"] == 0:
                     res.violation(["second-out-accepted"], witness, {"stdout": ev["stdout"][:200]})
                 elif ev["exit"] == 1:
@@ -247,19 +274,22 @@ def check_witness(w):
     try:
         fmt = w["format"]
         ext = convs[fmt]
+        pl = Place(*w.get("place", ["f.ucg", ".", False]))
         with core.TempProject("c14r") as tp:
-            tp.write("f.ucg", "let v = %s;\nout %s v;\n" % (w["good"], fmt))
-            ok = judge_good(res, probe, tp, fmt, ext, w["good"], ["good"], w)
+            os.makedirs(tp.path("other"), exist_ok=True)
+            tp.write(pl.src, "let v = %s;\nout %s v;\n" % (w["good"], fmt))
+            ok = judge_good(res, probe, tp, pl, fmt, ext, w["good"], ["good"], w)
             if w.get("bad") and w["bad"] != "constraint value":
-                tp.write("f.ucg", "let v = %s;\nout %s v;\n" % (w["bad"], fmt))
-                judge_bad(res, tp, fmt, ext, ["good", "bad"], w, "literal")
+                tp.write(pl.src, "let v = %s;\nout %s v;\n" % (w["bad"], fmt))
+                judge_bad(res, tp, pl, fmt, ext, ["good", "bad"], w, "literal")
             elif w.get("bad"):
-                tp.write("f.ucg", CONSTRAINT_PROG % fmt)
-                judge_bad(res, tp, fmt, ext, ["good", "constraint"], w, "constraint")
+                tp.write(pl.src, CONSTRAINT_PROG % fmt)
+                judge_bad(res, tp, pl, fmt, ext, ["good", "constraint"], w, "constraint")
         if w.get("bad") and w["bad"] != "constraint value":
             with core.TempProject("c14r") as tp:
-                tp.write("f.ucg", "let v = %s;\nout %s v;\n" % (w["bad"], fmt))
-                judge_bad(res, tp, fmt, ext, ["bad"], w, "literal")
+                os.makedirs(tp.path("other"), exist_ok=True)
+                tp.write(pl.src, "let v = %s;\nout %s v;\n" % (w["bad"], fmt))
+                judge_bad(res, tp, pl, fmt, ext, ["bad"], w, "literal")
     finally:
         probe.stop()
     return res
